@@ -6847,29 +6847,12 @@ impl RelationalEngine {
         #[cfg(feature = "neumann_verif")]
         tensor_store::verif_hooks::yield_point("rel.tx_insert.after_slab_insert");
 
-        // Update indexes
+        // What a rollback has to remove again. Built before the indexes are
+        // touched: if an index update fails half-way the same entry is used to
+        // take the row and the entries already added back out, so a failed
+        // insert leaves nothing behind.
         let indexed_columns = self.get_table_indexes(table);
-        for col in &indexed_columns {
-            if col == "_id" {
-                self.index_add(table, col, &Value::Int(row_id as i64), row_id)?;
-            } else if let Some(value) = values.get(col) {
-                self.index_add(table, col, value, row_id)?;
-            }
-        }
-
         let btree_columns = self.get_table_btree_indexes(table);
-        for col in &btree_columns {
-            if col == "_id" {
-                self.btree_index_add(table, col, &Value::Int(row_id as i64), row_id)?;
-            } else if let Some(value) = values.get(col) {
-                self.btree_index_add(table, col, value, row_id)?;
-            }
-        }
-
-        #[cfg(feature = "neumann_verif")]
-        tensor_store::verif_hooks::yield_point("rel.tx_insert.after_index");
-
-        // Capture index entries for rollback (must happen AFTER index updates)
         let mut index_entries: Vec<(String, Value)> = Vec::new();
         for col in indexed_columns.iter().chain(btree_columns.iter()) {
             if col == "_id" {
@@ -6878,17 +6861,42 @@ impl RelationalEngine {
                 index_entries.push((col.clone(), value.clone()));
             }
         }
+        let undo = UndoEntry::InsertedRow {
+            table: table.to_string(),
+            slab_row_id,
+            row_id,
+            index_entries,
+        };
+
+        // Update indexes
+        let indexed = (|| -> Result<()> {
+            for col in &indexed_columns {
+                if col == "_id" {
+                    self.index_add(table, col, &Value::Int(row_id as i64), row_id)?;
+                } else if let Some(value) = values.get(col) {
+                    self.index_add(table, col, value, row_id)?;
+                }
+            }
+
+            for col in &btree_columns {
+                if col == "_id" {
+                    self.btree_index_add(table, col, &Value::Int(row_id as i64), row_id)?;
+                } else if let Some(value) = values.get(col) {
+                    self.btree_index_add(table, col, value, row_id)?;
+                }
+            }
+            Ok(())
+        })();
+        if let Err(e) = indexed {
+            let _ = self.apply_undo_entry(&undo);
+            return Err(e);
+        }
+
+        #[cfg(feature = "neumann_verif")]
+        tensor_store::verif_hooks::yield_point("rel.tx_insert.after_index");
 
         // Record undo entry
-        self.tx_manager.record_undo(
-            tx_id,
-            UndoEntry::InsertedRow {
-                table: table.to_string(),
-                slab_row_id,
-                row_id,
-                index_entries,
-            },
-        );
+        self.tx_manager.record_undo(tx_id, undo);
 
         Ok(row_id)
     }
